@@ -116,7 +116,7 @@ def extract(repo=REPO, config="dev", extra_crate_dirs=()):
         lock.close()
 
 
-def _prune(keep, maxn=6):
+def _prune(keep, maxn=int(os.environ.get("VERIF_CACHE_MAX", "6"))):
     ds = [os.path.join(CACHE, d) for d in os.listdir(CACHE) if d.startswith("facts-")]
     ds = [d for d in ds if os.path.isdir(d) and d != keep]
     ds.sort(key=os.path.getmtime, reverse=True)
@@ -302,6 +302,11 @@ def load(repo=REPO, config="dev"):
     t = time.time()
     d, cached = extract(repo, config)
     p = Program(d, cached, config)
+    if os.environ.get("VERIF_NO_INLINE") != "1":
+        from . import inline
+        p.inlined = inline.run(p)
+    else:
+        p.inlined = {}
     p.load_s = time.time() - t
     return p
 
